@@ -77,6 +77,72 @@ func disjuncts(v ssa.Value) []ssa.Value {
 	return out
 }
 
+// conjuncts decomposes a boolean value built with && into its operands (mirror image of disjuncts: the φ has
+// `false` on the short-circuit edges; a φ with a `true` edge is a disjunction and stays opaque).
+func conjuncts(v ssa.Value) []ssa.Value {
+	phi, ok := v.(*ssa.Phi)
+	if !ok {
+		return []ssa.Value{v}
+	}
+	for _, e := range phi.Edges {
+		if c, ok := e.(*ssa.Const); ok && constBool(c) {
+			return []ssa.Value{v}
+		}
+	}
+	var out []ssa.Value
+	for i, e := range phi.Edges {
+		if c, ok := e.(*ssa.Const); ok && !constBool(c) {
+			pb := phi.Block().Preds[i]
+			if ifi, ok := pb.Instrs[len(pb.Instrs)-1].(*ssa.If); ok {
+				out = append(out, conjuncts(ifi.Cond)...)
+			}
+			continue
+		}
+		out = append(out, conjuncts(e)...)
+	}
+	return out
+}
+
+// boolFact: a boolean value with the truth value it is known to have at some point.
+type boolFact struct {
+	V     ssa.Value
+	Truth bool
+}
+
+// knownBools: the boolean values whose truth is established by the branches that dominate `at`: on a false edge
+// every operand of an `a || b` is false, on a true edge every operand of an `a && b` is true; negations are
+// unwrapped. A short-circuit value of the other kind stays one opaque fact.
+func knownBools(at ssa.Instruction) []boolFact {
+	var out []boolFact
+	add := func(v ssa.Value, t bool) {
+		for {
+			u, ok := v.(*ssa.UnOp)
+			if !ok || u.Op != token.NOT {
+				break
+			}
+			v, t = u.X, !t
+		}
+		out = append(out, boolFact{v, t})
+	}
+	for _, ifi := range core.Ifs(at.Parent()) {
+		for bi, succ := range ifi.Block().Succs {
+			if !core.EdgeDominates(ifi.Block(), succ, at.Block()) {
+				continue
+			}
+			if bi == 1 {
+				for _, d := range disjuncts(ifi.Cond) {
+					add(d, false)
+				}
+			} else {
+				for _, d := range conjuncts(ifi.Cond) {
+					add(d, true)
+				}
+			}
+		}
+	}
+	return out
+}
+
 func asCmp(v ssa.Value, at ssa.Instruction, negate bool) (cmp, bool) {
 	for {
 		if u, ok := v.(*ssa.UnOp); ok && u.Op == token.NOT {
